@@ -10,8 +10,9 @@
    sorted (string) order starting at 1, so that `sorted`'s alphabetical order is
    the order of Z.  Python's WILDCARD = "." used *as a sequence symbol* (it is
    inserted into the result when no symbol_priority is given) is `wild_sym` = -1:
-   it sorts before every name ("." < [0-9A-Za-z_]) and, no pattern being able to
-   name it, is matched by `.` only.  END_OF_SEQUENCE never is a sequence symbol.
+   no pattern being able to name it, it is matched by `.` only.  In the sets the
+   code computes, WILDCARD is the label LAny (it sorts before every name:
+   "." < [0-9A-Za-z_]).  END_OF_SEQUENCE never is a sequence symbol.
 
    Python sets are duplicate-free lists; the only place where the iteration
    order of a set is observable is the argument of `sorted`, and the model
@@ -24,30 +25,24 @@ Open Scope Z_scope.
 
 Definition wild_sym : sym := -1.
 
-(* ---- sets of symbols ------------------------------------------------------- *)
-Definition zmem (x : Z) (l : list Z) : bool := existsb (Z.eqb x) l.
-Definition zadd (x : Z) (l : list Z) : list Z := if zmem x l then l else l ++ [x].
+(* ---- sets of symbols: duplicate-free lists of labels (LSym s = the symbol s,
+   LAny = WILDCARD, LEos = END_OF_SEQUENCE) -------------------------------------- *)
+Definition lmem (x : label) (l : list label) : bool := existsb (label_eqb x) l.
+Definition ladd (x : label) (l : list label) : list label := if lmem x l then l else l ++ [x].
 (* a.update(b) *)
-Definition zunion (a b : list Z) : list Z := fold_left (fun acc x => zadd x acc) b a.
+Definition lunion (a b : list label) : list label := fold_left (fun acc x => ladd x acc) b a.
 (* a.intersection_update(b) *)
-Definition zinter (a b : list Z) : list Z := filter (fun x => zmem x b) a.
-(* a.remove(x) *)
-Definition zremove (x : Z) (a : list Z) : list Z := filter (fun y => negb (Z.eqb x y)) a.
+Definition linter (a b : list label) : list label := filter (fun x => lmem x b) a.
+(* a.remove(x) / a.discard(x) *)
+Definition lremove (x : label) (a : list label) : list label := filter (fun y => negb (label_eqb x y)) a.
 
 (* ---- adapter to the Matcher ------------------------------------------------- *)
-(* `symbols = matcher.valid_next_symbols(); symbols.discard(END_OF_SEQUENCE)` *)
-Fixpoint syms_of_labels (ls : list label) : list sym :=
-  match ls with
-  | [] => []
-  | LSym s :: r => zadd s (syms_of_labels r)
-  | LAny :: r => zadd wild_sym (syms_of_labels r)
-  | LEos :: r => syms_of_labels r
-  end.
-Definition vn_syms (m : matcher) : list sym := syms_of_labels (valid_next m).
+(* `m.valid_next_symbols()` as a set *)
+Definition vn_set (m : matcher) : list label := lunion [] (valid_next m).
 
 (* `s in m.valid_next_symbols() or WILDCARD in m.valid_next_symbols()` *)
 Definition accepts_next (m : matcher) (s : sym) : bool :=
-  zmem s (vn_syms m) || zmem wild_sym (vn_syms m).
+  lmem (LSym s) (vn_set m) || lmem LAny (vn_set m).
 
 (* `new_matchers = deepcopy(matchers); for m in new_matchers: m.match_symbol(s)`
    (the result of match_symbol is ignored by the code) *)
@@ -55,49 +50,61 @@ Definition advance (ms : list matcher) (s : sym) : list matcher :=
   map (fun m => snd (match_symbol m s)) ms.
 
 (* ---- candidate symbols -------------------------------------------------------- *)
-(* one round of the `for matcher in matchers` loop *)
-Definition cand_step (cand symbols : list sym) : list sym :=
-  if zmem wild_sym symbols && zmem wild_sym cand then zunion cand symbols
-  else if zmem wild_sym cand then symbols
-  else if zmem wild_sym symbols then cand
-  else zinter cand symbols.
+(* one round of the `for matcher in matchers` loop; `symbols` already without
+   END_OF_SEQUENCE *)
+Definition cand_step (cand symbols : list label) : list label :=
+  if lmem LAny symbols && lmem LAny cand then lunion cand symbols
+  else if lmem LAny cand then symbols
+  else if lmem LAny symbols then cand
+  else linter cand symbols.
 
-Definition cand_set (ms : list matcher) : list sym :=
-  fold_left (fun cand m => cand_step cand (vn_syms m)) ms [wild_sym].
+Definition cand_set (ms : list matcher) : list label :=
+  fold_left (fun cand m => cand_step cand (lremove LEos (vn_set m))) ms [LAny].
 
 Definition is_nil {A} (l : list A) : bool := match l with [] => true | _ => false end.
 
 (* "Substitute wildcard for concrete symbols if possible" *)
-Definition subst_wild (prio cand : list sym) : list sym :=
-  if zmem wild_sym cand && negb (is_nil prio) then zunion (zremove wild_sym cand) prio else cand.
+Definition subst_wild (prio : list sym) (cand : list label) : list label :=
+  if lmem LAny cand && negb (is_nil prio) then lunion (lremove LAny cand) (map LSym prio) else cand.
 
-(* the sort key: (symbol_priority.index(sym), None) or (len(symbol_priority), sym) *)
+(* the sort key: (symbol_priority.index(sym), None) or (len(symbol_priority), sym), as a
+   triple of numbers ordered lexicographically: WILDCARD = "." sorts before every symbol
+   name.  (END_OF_SEQUENCE never is a candidate; it gets a key of its own.) *)
 Fixpoint index_of (s : sym) (l : list sym) (i : Z) : option Z :=
   match l with
   | [] => None
   | x :: r => if Z.eqb s x then Some i else index_of s r (i + 1)
   end.
-Definition sort_key (prio : list sym) (s : sym) : Z * Z :=
-  match index_of s prio 0 with
-  | Some i => (i, 0)
-  | None => (Z.of_nat (length prio), s)
+Definition sort_key (prio : list sym) (l : label) : Z * Z * Z :=
+  let n := Z.of_nat (length prio) in
+  match l with
+  | LSym s => match index_of s prio 0 with Some i => (i, 0, 0) | None => (n, 1, s) end
+  | LAny => (n, 0, 0)
+  | LEos => (n, 2, 0)
   end.
-Definition key_leb (a b : Z * Z) : bool :=
-  (fst a <? fst b) || ((fst a =? fst b) && (snd a <=? snd b)).
+Definition key_leb (a b : Z * Z * Z) : bool :=
+  match a, b with
+  | (a1, a2, a3), (b1, b2, b3) =>
+    (a1 <? b1) || ((a1 =? b1) && ((a2 <? b2) || ((a2 =? b2) && (a3 <=? b3))))
+  end.
 
 (* `sorted(set, key=...)`: a stable sort (insertion sort, walking the input from
    the right so that equal keys keep their order) *)
-Fixpoint insert_by (prio : list sym) (x : sym) (l : list sym) : list sym :=
+Fixpoint insert_by (prio : list sym) (x : label) (l : list label) : list label :=
   match l with
   | [] => [x]
   | y :: r => if key_leb (sort_key prio x) (sort_key prio y) then x :: y :: r else y :: insert_by prio x r
   end.
-Definition sort_cands (prio : list sym) (l : list sym) : list sym :=
+Definition sort_cands (prio : list sym) (l : list label) : list label :=
   fold_right (insert_by prio) [] l.
 
-(* candidate_symbols of a search state, in the order they are tried *)
-Definition candidates (enum : list sym -> list sym) (prio : list sym) (ms : list matcher) : list sym :=
-  sort_cands prio (enum (subst_wild prio (cand_set ms))).
+(* the symbol a candidate stands for in a sequence *)
+Definition sym_of_label (l : label) : sym := match l with LSym s => s | _ => wild_sym end.
+
+(* candidate_symbols of a search state, in the order they are tried; `enum` is the
+   order in which `sorted` iterates over the set *)
+Definition candidates (enum : list label -> list label) (prio : list sym) (ms : list matcher) : list sym :=
+  map sym_of_label (sort_cands prio (enum (subst_wild prio (cand_set ms)))).
 
 (* ---- the search --------------------------------------------------------------- *)
 (* a queue entry (symbols_so_far, symbols_remaining, matchers, this_depth_limit) *)
@@ -112,7 +119,7 @@ Record node := mkNode {
    return, or append entries to the queue *)
 Inductive xres := Found (out : list sym) | Children (cs : list node).
 
-Definition expand (enum : list sym -> list sym) (prio : list sym) (limit : Z) (nd : node) : xres :=
+Definition expand (enum : list label -> list label) (prio : list sym) (limit : Z) (nd : node) : xres :=
   let insertions :=
     if n_d nd <=? 0 then Children []
     else Children (map (fun c => mkNode (n_sofar nd ++ [c]) (n_rem nd) (advance (n_ms nd) c) (n_d nd - 1))
@@ -145,9 +152,28 @@ Fixpoint bfs (ex : node -> xres) (fuel : nat) (queue : list node) : result :=
 Definition root (init : list sym) (pats : list re) (limit : Z) : node :=
   mkNode [] init (map (new_matcher Directed) pats) limit.
 
-Definition make_seq_gen (enum : list sym -> list sym) (fuel : nat)
+Definition make_seq_gen (enum : list label -> list label) (fuel : nat)
            (init : list sym) (pats : list re) (limit : Z) (prio : list sym) : result :=
   bfs (expand enum prio limit) fuel [root init pats limit].
 
 (* make_matching_sequence(init, *pats, depth_limit=limit, symbol_priority=prio) *)
 Definition make_seq := make_seq_gen (fun l => l).
+
+(* ---- specification helpers (used by the theorem statements) ---------------------- *)
+(* the Matchers of all patterns after the symbols w; None if one of them rejected *)
+Fixpoint feed_all (pats : list re) (w : list sym) : option (list matcher) :=
+  match pats with
+  | [] => Some []
+  | p :: r =>
+    match feed Directed p w, feed_all r w with
+    | Some m, Some l => Some (m :: l)
+    | _, _ => None
+    end
+  end.
+
+(* the symbols the search tries to insert after w *)
+Definition cands_at (pats : list re) (prio : list sym) (w : list sym) : list sym :=
+  match feed_all pats w with
+  | Some ms => candidates (fun l => l) prio ms
+  | None => []
+  end.
